@@ -154,6 +154,29 @@ type c09wit struct {
 
 var c09known *ugo.Bytecode
 
+// c09abortBlocked is set when a call of VM.Abort did not return within 5 s ("Abort may be called any number of times"
+// and is documented as safe from any goroutine: it must not wait for the script it is supposed to stop).
+var c09abortBlocked atomic.Bool
+
+// c09abort calls vm.Abort on its own goroutine and gives up waiting after 5 s.
+func c09abort(vm *ugo.VM) bool {
+	if c09abortBlocked.Load() {
+		return false
+	}
+	d := make(chan struct{})
+	go func() {
+		vm.Abort()
+		close(d)
+	}()
+	select {
+	case <-d:
+		return true
+	case <-time.After(5 * time.Second):
+		c09abortBlocked.Store(true)
+		return false
+	}
+}
+
 // c09stuck: a run could not be stopped and its goroutine is still spinning; the worker ends its batch early
 var c09stuck atomic.Bool
 
@@ -240,7 +263,7 @@ func (m c09) placement(c *core.Ctx, wl c09wl, point string, nth int, action stri
 	} else {
 		ctl.action = func() {
 			for i := 0; i < n; i++ {
-				vm.Abort()
+				c09abort(vm)
 			}
 		}
 	}
@@ -263,7 +286,7 @@ func (m c09) placement(c *core.Ctx, wl c09wl, point string, nth int, action stri
 				if wl.eval {
 					pcancel()
 				} else {
-					vm.Abort()
+					c09abort(vm)
 				}
 			}
 			select {
@@ -275,7 +298,7 @@ func (m c09) placement(c *core.Ctx, wl c09wl, point string, nth int, action stri
 		pcancel()
 		if !stopped {
 			for i := 0; i < 20000 && !stopped; i++ {
-				vm.Abort()
+				c09abort(vm)
 				select {
 				case <-pdone:
 					stopped = true
@@ -322,7 +345,7 @@ func (m c09) placement(c *core.Ctx, wl c09wl, point string, nth int, action stri
 	}
 	rescue := func() {
 		for i := 0; i < 20000; i++ {
-			vm.Abort()
+			c09abort(vm)
 			cancel()
 			select {
 			case <-done:
@@ -348,6 +371,12 @@ func (m c09) placement(c *core.Ctx, wl c09wl, point string, nth int, action stri
 			return
 		}
 		<-ctl.actDone
+	}
+	if c09abortBlocked.Load() {
+		c.Violation("C09|abort-blocks|"+wl.name+"|"+point, fmt.Sprintf("VM.Abort does not return (5 s) when called at %s of workload %s: the script is never told to stop", point, wl.name), wit("Abort blocks", 0))
+		c09stuck.Store(true)
+		cancel()
+		return
 	}
 	c.Count("placements_point_reached")
 	c.SetAdd("points_reached", wl.name+"@"+point)
@@ -489,10 +518,15 @@ func (m c09) stress(c *core.Ctx, wl c09wl, spin int) {
 		wg.Add(1)
 		go func() {
 			defer wg.Done()
-			vm.Abort()
+			c09abort(vm)
 		}()
 	}
 	wg.Wait()
+	if c09abortBlocked.Load() {
+		c.Violation("C09|abort-blocks|"+wl.name+"|stress", "stress: VM.Abort does not return (5 s)", c09wit{Workload: wl.name, Point: at, Action: "abort-x2-concurrent", Order: "stress", Why: "Abort blocks"})
+		c09stuck.Store(true)
+		return
+	}
 	nA := counter.Load()
 	c.Count("stress_runs")
 	c.SetAdd("stress_abort_landed_after_point", wl.name+"@"+at)
@@ -504,7 +538,7 @@ func (m c09) stress(c *core.Ctx, wl c09wl, spin int) {
 			if counter.Load()-nA > wl.bound {
 				lost = true
 				for i := 0; i < 20000; i++ {
-					vm.Abort()
+					c09abort(vm)
 					select {
 					case <-done:
 						i = 20000
